@@ -455,7 +455,14 @@ IsC(pr) == \A i \in DOMAIN pr :
              /\ pr[i].op = "use" => pr[i].form = "plain"
              /\ pr[i].op = "decl" /\ pr[i].form = "global" => pr[i].sub = <<>>     \* C wants constant initialisers at file scope
 
-Ends == LET it == prog[Len(prog)] IN it.op \in {"use", "call"} \/ (it.op = "decl" /\ it.sub # <<>>)
+\* A program is emitted when its last item is worth judging: a use / call, or a declaration written AFTER a use of the
+\* same name (a later declaration must not change what the earlier use means).
+Ends == LET it == prog[Len(prog)] IN
+          \/ it.op \in {"use", "call"}
+          \/ it.op = "decl" /\ it.sub # <<>>
+          \/ it.op \in {"decl", "fdecl"} /\ \E i \in 1..(Len(prog) - 1) :
+                \/ prog[i].op \in {"use", "call"} /\ prog[i].nm = it.nm
+                \/ \E j \in DOMAIN prog[i].sub : prog[i].sub[j].form \in {"init", "initsrc", "copy", "ref"} /\ prog[i].sub[j].nm = it.nm
 Complete == Size = P.K /\ Ends /\ Finishable
 
 Write(pr) == Serialize(ToJson([prog |-> pr, c |-> IsC(pr)]) \o "\n", IOEnv.OUT,
